@@ -216,7 +216,9 @@ def pair_reset(ctx, i, spec, n, rng, case):
     # variant: the user re-applies position and speed only and relies on reset() to restore the duty cycle. Sound only when
     # the restored value (first *recorded* duty cycle, i.e. after control) is lock-equivalent to the one the first run started
     # with: same sign class, or no self-locking mating (judged below, after the first run is known).
-    rely_on_reset_pwm = sp['ic'].get('pwm') is None and rng.random() < 0.5
+    # (not with state-keyed rules: their proposal at the first instant reads the motor's current, which depends on the duty cycle
+    # the motor had BEFORE the run -- reset() restores the first recorded one, not that one)
+    rely_on_reset_pwm = sp['ic'].get('pwm') is None and rng.random() < 0.5 and not any(r_['type'] != 'const' for r_ in sp.get('rules', []))
     if rely_on_reset_pwm:
         sp['reapply_pwm'] = False
     case = dict(case, pair='reset')
